@@ -380,6 +380,11 @@ func RunReplay(p *Prop, v *Violation) (fail *Failure) {
 	w := newWorker(p, v.Tier, v.Variant)
 	w.replay = true
 	w.deadline = time.Now().Add(time.Hour)
+	if g := os.Getenv("VERIF_GOLDEN"); g != "" {
+		if b, err := os.ReadFile(g); err == nil {
+			json.Unmarshal(b, &w.golden)
+		}
+	}
 	x := w.run(v.Choices)
 	if len(x.choices) != len(v.Choices) {
 		panic(fmt.Sprintf("HARNESS-ERROR replay divergence: %d choices made, %d recorded", len(x.choices), len(v.Choices)))
